@@ -5,11 +5,15 @@ import ZvbiModel.Demux.JoinUnits
 `extract_data_units` / `demux_pes_packet_frame` on a data unit region `encUnits us` whose lines
 (`unitsLines us = some ls`) have defined, strictly ascending line numbers: the lines are appended to
 the frame; if the first line does not lie beyond the last line of the frame under assembly, that
-frame is delivered first and a new one begins (only at the start of a packet).
+frame is delivered first and a new one begins (only at the start of a packet).  In the shape of the
+source before fix dvb-demux-full-frame this needs room in the buffer (fewer than 64 lines held); with
+the fix a frame that fills the buffer exactly is closed like any other (`hfull`/`hcap` disjunctions).
 -/
 namespace Zvbi.Demux
 open Zvbi.Hamm (rev8)
 open Zvbi.Mux.EnParse (Line Svc DataUnit Pes unitLine unitsLines lofpLine encUnits parseUnits parseUnitsF allFF)
+
+variable {cfg : SrcCfg}
 
 /-- line numbers strictly ascending, the first one above `x` (so all are defined, i.e. non-zero) -/
 def AscFrom : Nat → List Line → Prop
@@ -44,11 +48,11 @@ theorem unitLine_nil_payload (id : Nat) (l : Line) : unitLine ⟨id, []⟩ ≠ s
 
 theorem extractLoop_step (fuel : Nat) (f : Frame) (id len : Nat) (rest : Bytes)
     (h1 : 2 < (id :: len :: rest).length) (h2 : len + 2 ≤ (id :: len :: rest).length) :
-    extractLoop (fuel + 1) f (id :: len :: rest) =
-      match dataUnit f (id :: len :: rest) id len with
+    extractLoop cfg (fuel + 1) f (id :: len :: rest) =
+      match dataUnit cfg f (id :: len :: rest) id len with
       | .fail f' r => (f', r, id :: len :: rest)
-      | .skip => extractLoop fuel { f with lastDuId := id } ((id :: len :: rest).drop (len + 2))
-      | .store f' => extractLoop fuel { f' with lastDuId := id } ((id :: len :: rest).drop (len + 2)) := by
+      | .skip => extractLoop cfg fuel { f with lastDuId := id } ((id :: len :: rest).drop (len + 2))
+      | .store f' => extractLoop cfg fuel { f' with lastDuId := id } ((id :: len :: rest).drop (len + 2)) := by
   rw [extractLoop, if_neg (by omega)]
   rw [if_neg (by omega)]
   rfl
@@ -60,7 +64,7 @@ theorem drop_unit (id : Nat) (p t : Bytes) : (id :: p.length :: (p ++ t)).drop (
 theorem extractLoop_stores : ∀ (us : List DataUnit) (ls : List Line) (f : Frame) (fuel : Nat),
     unitsLines us = some ls → AscFrom f.lastFrameLine ls → f.lines.length + ls.length ≤ 64 →
     (encUnits us).length < fuel →
-    ∃ f', extractLoop fuel f (encUnits us) = (f', .done, []) ∧ f'.lines = f.lines ++ ls.map ofLine
+    ∃ f', extractLoop cfg fuel f (encUnits us) = (f', .done, []) ∧ f'.lines = f.lines ++ ls.map ofLine
       ∧ f'.lastFrameLine = lastLineOf f.lastFrameLine ls := by
   intro us
   induction us with
@@ -114,7 +118,7 @@ theorem extractLoop_stores : ∀ (us : List DataUnit) (ls : List Line) (f : Fram
             | none =>
               simp only [Option.some.injEq] at hul
               subst hul
-              have := dataUnit_stuff_unit f ⟨id, p⟩ (id :: p.length :: (p ++ encUnits us)) hu
+              have := dataUnit_stuff_unit (cfg := cfg) f ⟨id, p⟩ (id :: p.length :: (p ++ encUnits us)) hu
               simp only at this
               rw [this]
               simp only []
@@ -125,9 +129,9 @@ theorem extractLoop_stores : ∀ (us : List DataUnit) (ls : List Line) (f : Fram
               subst hul
               obtain ⟨hlt, hasc'⟩ := hasc
               simp only [List.length_cons] at hcap
-              obtain ⟨lofp, hdu⟩ := dataUnit_line f ⟨id, p⟩ l (encUnits us) hu (by omega) (by omega)
+              obtain ⟨lofp, hdu⟩ := dataUnit_line (cfg := cfg) f ⟨id, p⟩ l (encUnits us) hu (by omega)
               simp only at hdu
-              rw [hdu, lineRes, if_neg (by omega)]
+              rw [hdu, lineRes_room _ _ _ (by omega), if_neg (by omega)]
               simp only []
               obtain ⟨f', h1, h2, h3⟩ := ih ls' { storeFrame f lofp l with lastDuId := id } fuel hrest
                 (by simpa [storeFrame, pushLine, addrFrame] using hasc')
@@ -137,12 +141,92 @@ theorem extractLoop_stores : ∀ (us : List DataUnit) (ls : List Line) (f : Fram
                 cases l.svc <;> rfl
               · rw [h3]; simp [storeFrame, pushLine, addrFrame, lastLineOf]
 
+/-- the loop over an accepted region whose lines continue the frame but do not all fit into the
+buffer: the lines are stored until the buffer is full, the next line unit gets
+VBI_ERR_SLICED_BUFFER_OVERFLOW (in both shapes of `line_address`: its line lies beyond the frame's last
+line, so no frame boundary is seen) -/
+theorem extractLoop_overflow : ∀ (us : List DataUnit) (ls : List Line) (f : Frame) (fuel : Nat),
+    unitsLines us = some ls → AscFrom f.lastFrameLine ls → f.lines.length ≤ 64 → 64 < f.lines.length + ls.length →
+    (encUnits us).length < fuel →
+    ∃ f' rest, extractLoop cfg fuel f (encUnits us) = (f', .err, rest) := by
+  intro us
+  induction us with
+  | nil =>
+    intro ls f fuel hul _ h64 hcap _
+    simp only [unitsLines, Option.some.injEq] at hul
+    subst hul
+    simp only [List.length_nil] at hcap; omega
+  | cons u us ih =>
+    intro ls f fuel hul hasc h64 hcap hfuel
+    cases fuel with
+    | zero => simp at hfuel
+    | succ fuel =>
+      obtain ⟨id, p⟩ := u
+      simp only [encUnits] at hfuel ⊢
+      by_cases hshort : (id :: p.length :: (p ++ encUnits us)).length ≤ 2
+      · exfalso
+        have hp : p = [] := by
+          apply List.eq_nil_of_length_eq_zero
+          simp only [List.length_cons, List.length_append] at hshort; omega
+        have hus : us = [] := by
+          rw [← encUnits_nil_iff]; apply List.eq_nil_of_length_eq_zero
+          simp only [List.length_cons, List.length_append] at hshort; omega
+        subst hp; subst hus
+        have hls : ls = [] := by
+          simp only [unitsLines] at hul
+          cases hu : unitLine ⟨id, []⟩ with
+          | none => rw [hu] at hul; simp at hul
+          | some o =>
+            cases o with
+            | none => rw [hu] at hul; simpa using hul.symm
+            | some l => exact absurd hu (unitLine_nil_payload id l)
+        subst hls
+        simp only [List.length_nil] at hcap; omega
+      · rw [extractLoop_step fuel f id p.length _ (by omega)
+          (by simp only [List.length_cons, List.length_append]; omega), drop_unit]
+        simp only [unitsLines] at hul
+        cases hu : unitLine ⟨id, p⟩ with
+        | none => rw [hu] at hul; simp at hul
+        | some o =>
+          cases hrest : unitsLines us with
+          | none => rw [hu, hrest] at hul; cases o <;> simp at hul
+          | some ls' =>
+            rw [hu, hrest] at hul
+            have hfuel' : (encUnits us).length < fuel := by
+              simp only [List.length_cons, List.length_append] at hfuel; omega
+            cases o with
+            | none =>
+              simp only [Option.some.injEq] at hul
+              subst hul
+              have := dataUnit_stuff_unit (cfg := cfg) f ⟨id, p⟩ (id :: p.length :: (p ++ encUnits us)) hu
+              simp only at this
+              rw [this]
+              simp only []
+              exact ih ls' { f with lastDuId := id } fuel hrest hasc h64 hcap hfuel'
+            | some l =>
+              simp only [Option.some.injEq] at hul
+              subst hul
+              obtain ⟨hlt, hasc'⟩ := hasc
+              simp only [List.length_cons] at hcap
+              obtain ⟨lofp, hdu⟩ := dataUnit_line (cfg := cfg) f ⟨id, p⟩ l (encUnits us) hu (by omega)
+              simp only at hdu
+              by_cases hroom : f.lines.length < 64
+              · rw [hdu, lineRes_room _ _ _ hroom, if_neg (by omega)]
+                simp only []
+                exact ih ls' { storeFrame f lofp l with lastDuId := id } fuel hrest
+                  (by simpa [storeFrame, pushLine, addrFrame] using hasc')
+                  (by simp [storeFrame, pushLine, addrFrame]; omega)
+                  (by simp [storeFrame, pushLine, addrFrame]; omega) hfuel'
+              · rw [hdu, lineRes_overflow _ _ _ (by omega) hlt]
+                exact ⟨_, _, rfl⟩
+
 /-- at the start of a packet (`n_data_units_extracted_from_packet = 0`) a first line that does not lie
 beyond the frame's last line ends the loop with -1 at that unit; the frame keeps its lines -/
 theorem extractLoop_newFrame : ∀ (us : List DataUnit) (l : Line) (ls : List Line) (f : Frame) (fuel : Nat),
-    unitsLines us = some (l :: ls) → l.line ≠ 0 → l.line ≤ f.lastFrameLine → f.nDu = 0 → f.lines.length < 64 →
+    unitsLines us = some (l :: ls) → l.line ≠ 0 → l.line ≤ f.lastFrameLine → f.nDu = 0 →
+    (cfg.lateOverflow = true ∨ f.lines.length < 64) →
     (encUnits us).length < fuel →
-    ∃ f1 us1, extractLoop fuel f (encUnits us) = (f1, .newFrame, encUnits us1) ∧ f1.lines = f.lines
+    ∃ f1 us1, extractLoop cfg fuel f (encUnits us) = (f1, .newFrame, encUnits us1) ∧ f1.lines = f.lines
       ∧ unitsLines us1 = some (l :: ls) ∧ (encUnits us1).length ≤ (encUnits us).length := by
   intro us
   induction us with
@@ -186,7 +270,7 @@ theorem extractLoop_newFrame : ∀ (us : List DataUnit) (l : Line) (ls : List Li
             | none =>
               simp only [Option.some.injEq] at hul
               subst hul
-              have := dataUnit_stuff_unit f ⟨id, p⟩ (id :: p.length :: (p ++ encUnits us)) hu
+              have := dataUnit_stuff_unit (cfg := cfg) f ⟨id, p⟩ (id :: p.length :: (p ++ encUnits us)) hu
               simp only at this
               rw [this]
               simp only []
@@ -196,14 +280,14 @@ theorem extractLoop_newFrame : ∀ (us : List DataUnit) (l : Line) (ls : List Li
             | some l' =>
               simp only [Option.some.injEq, List.cons.injEq] at hul
               obtain ⟨rfl, rfl⟩ := hul
-              obtain ⟨lofp, hdu⟩ := dataUnit_line f ⟨id, p⟩ l' (encUnits us) hu h0 hcap
+              obtain ⟨lofp, hdu⟩ := dataUnit_line (cfg := cfg) f ⟨id, p⟩ l' (encUnits us) hu h0
               simp only at hdu
-              rw [hdu, lineRes, if_pos hle, if_neg (by omega)]
+              rw [hdu, lineRes_newFrame _ _ _ hcap hle hn]
               simp only []
               refine ⟨f, ⟨id, p⟩ :: us, rfl, rfl, ?_, Nat.le_refl _⟩
               simp only [unitsLines, hu, hrest]
 
-theorem extract_eq (f : Frame) (d : Bytes) (h : 2 ≤ d.length) : extract f d = extractLoop (d.length + 1) f d := by
+theorem extract_eq (f : Frame) (d : Bytes) (h : 2 ≤ d.length) : extract cfg f d = extractLoop cfg (d.length + 1) f d := by
   unfold extract; rw [if_neg (by omega)]
 
 theorem length_encUnits_cons (u : DataUnit) (us : List DataUnit) : 2 ≤ (encUnits (u :: us)).length := by
@@ -221,7 +305,7 @@ reset, takes the packet's PTS and all lines; nothing is delivered -/
 theorem pesPacketFrame_first (se : Bool) (fs : FS) (us : List DataUnit) (l : Line) (ls : List Line)
     (hnf : fs.newFrame = true) (hul : unitsLines us = some (l :: ls)) (hasc : AscFrom 0 (l :: ls))
     (hcap : (l :: ls).length ≤ 64) :
-    ∃ fs', pesPacketFrame 3 true se fs (encUnits us) = (fs', [], .done, [])
+    ∃ fs', pesPacketFrame cfg 3 true se fs (encUnits us) = (fs', [], .done, [])
       ∧ Holds fs' fs.packetPts (l :: ls) ∧ fs'.packetPts = fs.packetPts := by
   have hne : us ≠ [] := by intro h; subst h; simp [unitsLines] at hul
   obtain ⟨u, us', rfl⟩ := List.exists_cons_of_ne_nil hne
@@ -238,10 +322,11 @@ theorem pesPacketFrame_first (se : Bool) (fs : FS) (us : List DataUnit) (l : Lin
 frame under assembly: that frame is delivered with its PTS, then the new frame takes the packet's
 PTS and lines -/
 theorem pesPacketFrame_next (se : Bool) (fs : FS) (us : List DataUnit) (l : Line) (ls : List Line)
-    (hnf : fs.newFrame = false) (hn : fs.frame.nDu = 0) (hfull : fs.frame.lines.length < 64)
+    (hnf : fs.newFrame = false) (hn : fs.frame.nDu = 0)
+    (hfull : cfg.lateOverflow = true ∨ fs.frame.lines.length < 64)
     (hul : unitsLines us = some (l :: ls)) (hasc : AscFrom 0 (l :: ls))
     (hcap : (l :: ls).length ≤ 64) (hle : l.line ≤ fs.frame.lastFrameLine) :
-    ∃ fs', pesPacketFrame 3 true se fs (encUnits us) = (fs', [⟨fs.framePts, fs.frame.lines⟩], .done, [])
+    ∃ fs', pesPacketFrame cfg 3 true se fs (encUnits us) = (fs', [⟨fs.framePts, fs.frame.lines⟩], .done, [])
       ∧ Holds fs' fs.packetPts (l :: ls) ∧ fs'.packetPts = fs.packetPts := by
   have hne : us ≠ [] := by intro h; subst h; simp [unitsLines] at hul
   obtain ⟨u, us', rfl⟩ := List.exists_cons_of_ne_nil hne
